@@ -253,6 +253,12 @@ class Program:
         """Role-based attribute names, then inlining of non-anchor private helpers (hwverif.normalize)."""
         from .normalize import apply_renames, flatten_program, role_renames, split_conditional_returns, unfold_missing_predicates
 
+        from .normalize import materialise_inherited_methods
+
+        inh = materialise_inherited_methods(self)
+        if inh:
+            self.normalisation_log += inh
+            self._reindex()
         from .normalize import split_record_attributes
 
         recs = split_record_attributes(self)
